@@ -23,41 +23,77 @@ theorem eraseAll_append (m : Own) (xs ys : List Rid) :
   | nil => rfl
   | cons x rest ih => simp [eraseAll, ih]
 
-theorem handleProcessResults_backend (s : Env) (rs : List (Pid × Bool)) :
-    (handleProcessResults s rs).backend = closeAll s.backend (cleanupList s.owner rs) := by
+theorem handleCleanups_backend (s : Env) (rs : List (Pid × Bool)) :
+    (handleCleanups s rs).backend = closeAll s.backend (cleanupList s.owner rs) := by
   induction rs generalizing s with
   | nil => rfl
   | cons x rest ih =>
     obtain ⟨p, b⟩ := x
     cases b
-    · simp [handleProcessResults, cleanupList, ih]
-    · simp [handleProcessResults, cleanupList, ih, closeAll_append]
+    · simp [handleCleanups, cleanupList, ih]
+    · simp [handleCleanups, cleanupList, ih, closeAll_append]
 
-theorem handleProcessResults_owner (s : Env) (rs : List (Pid × Bool)) :
-    (handleProcessResults s rs).owner = eraseAll s.owner (cleanupList s.owner rs) := by
+theorem handleCleanups_owner (s : Env) (rs : List (Pid × Bool)) :
+    (handleCleanups s rs).owner = eraseAll s.owner (cleanupList s.owner rs) := by
   induction rs generalizing s with
   | nil => rfl
   | cons x rest ih =>
     obtain ⟨p, b⟩ := x
     cases b
-    · simp [handleProcessResults, cleanupList, ih]
-    · simp [handleProcessResults, cleanupList, ih, eraseAll_append]
+    · simp [handleCleanups, cleanupList, ih]
+    · simp [handleCleanups, cleanupList, ih, eraseAll_append]
 
-theorem handleProcessResults_out (s : Env) (rs : List (Pid × Bool)) :
-    (handleProcessResults s rs).out = s.out := by
+theorem handleCleanups_out (s : Env) (rs : List (Pid × Bool)) :
+    (handleCleanups s rs).out = s.out := by
   induction rs generalizing s with
   | nil => rfl
   | cons x rest ih =>
     obtain ⟨p, b⟩ := x
-    cases b <;> simp [handleProcessResults, ih]
+    cases b <;> simp [handleCleanups, ih]
 
-theorem mem_reportedOf {rs : List (Pid × Bool)} {p : Pid} : p ∈ reportedOf rs ↔ (p, true) ∈ rs := by
+theorem mem_reportedOf {rs : List (Pid × Rep)} {p : Pid} :
+    p ∈ reportedOf rs ↔ ∃ rep, (p, rep) ∈ rs ∧ rep ≠ .pending := by
   unfold reportedOf
   simp only [List.mem_map, List.mem_filter]
   constructor
   · rintro ⟨⟨q, b⟩, ⟨hm, hb⟩, hq⟩
-    simp at hb hq; subst hb; subst hq; exact hm
-  · intro h; exact ⟨(p, true), ⟨h, rfl⟩, rfl⟩
+    simp at hb hq; subst hq; exact ⟨b, hm, hb⟩
+  · rintro ⟨rep, h, hne⟩; exact ⟨(p, rep), ⟨h, by simpa using hne⟩, rfl⟩
+
+/-- The entries of a `ProcessResults`, classified by the cleanup rule. -/
+def classify (pers : List Pid) (rs : List (Pid × Rep)) : List (Pid × Bool) :=
+  rs.map fun x => (x.1, cleans pers x)
+
+theorem mem_classify {pers : List Pid} {rs : List (Pid × Rep)} {p : Pid} :
+    (p, true) ∈ classify pers rs ↔ ∃ rep, (p, rep) ∈ rs ∧ cleans pers (p, rep) = true := by
+  unfold classify
+  simp only [List.mem_map, Prod.mk.injEq]
+  constructor
+  · rintro ⟨⟨q, rep⟩, hm, hq, hc⟩
+    simp only at hq hc; subst hq; exact ⟨rep, hm, hc⟩
+  · rintro ⟨rep, hm, hc⟩; exact ⟨(p, rep), hm, rfl, hc⟩
+
+theorem handleProcessResults_backend (s : Env) (rs : List (Pid × Rep)) :
+    (handleProcessResults s rs).backend
+      = closeAll s.backend (cleanupList s.owner (classify s.persistent rs)) :=
+  handleCleanups_backend s _
+
+theorem handleProcessResults_owner (s : Env) (rs : List (Pid × Rep)) :
+    (handleProcessResults s rs).owner
+      = eraseAll s.owner (cleanupList s.owner (classify s.persistent rs)) :=
+  handleCleanups_owner s _
+
+theorem handleProcessResults_out (s : Env) (rs : List (Pid × Rep)) :
+    (handleProcessResults s rs).out = s.out :=
+  handleCleanups_out s _
+
+theorem handleCleanups_persistent (s : Env) (rs : List (Pid × Bool)) :
+    (handleCleanups s rs).persistent = s.persistent := by
+  induction rs generalizing s with
+  | nil => rfl
+  | cons x rest ih =>
+    obtain ⟨p, b⟩ := x
+    cases b <;> simp [handleCleanups, ih, cleanupProcessResources]
 
 theorem mem_cleanupList {m : Own} (hn : KeysNodup m) {rs : List (Pid × Bool)} {r : Rid} :
     r ∈ cleanupList m rs ↔ ∃ p, (p, true) ∈ rs ∧ ownGet m r = some p := by
